@@ -494,6 +494,14 @@ func c08Judge(c *wk.Ctx, t *c08Transcript, f c08Fault, res *c08Outcome, wit map[
 				}
 				rel := int(f.at - m.start)
 				hit := rel == 0
+				if i := bytes.Index(m.bytes, []byte("\x64data")); t.version != 1 && i >= 0 && rel == i+5 {
+					// the header of the payload map {step_id, output_id, output_data, debug_logs}: anything that is no longer
+					// a map, or a map cut down to fewer than two entries, carries no output ID (a map cut to two or three
+					// entries still delivers a result that no client can tell from an intact one)
+					if nb := m.bytes[rel] ^ f.garbage[0]; nb>>5 != 5 || nb&0x1f < 2 {
+						hit = true
+					}
+				}
 				if hit && t.version == 1 {
 					// a v1 work-done is a bare map {step_id, output_id, output_data, debug_logs}: a header that still says
 					// "map" with at least the three entries that carry the result delivers that result unharmed (what
@@ -619,8 +627,8 @@ func runC08(c *wk.Ctx) {
 		// one flipped byte in the runtime part (the stream then continues to its end)
 		if strings.HasPrefix(t.name, "v") {
 			for k := helloEnd; k < total; k++ {
-				for mi, mask := range []byte{0x01, 0x02, 0x20, 0x80, 0xff, 0x07} {
-					if c.Quick() && (int(k)+mi)%3 != 0 && mask != 0x07 {
+				for mi, mask := range []byte{0x01, 0x02, 0x20, 0x80, 0xff, 0x07, 0x04} {
+					if c.Quick() && (int(k)+mi)%3 != 0 && mask != 0x07 && mask != 0x04 {
 						continue
 					}
 					jobs = append(jobs, job{ti, c08Fault{kind: rig.FaultFlip, at: k, failWrites: -1, garbage: []byte{mask}}, "byte-flip"})
